@@ -101,6 +101,11 @@ def explore(prop, strategy, run_case, n, seed, stats, shrink=True, budget_s=None
     failing = {}
 
     def body(case):
+        sig = _body(case)
+        if sig is not None:
+            raise Found(sig)        # single raise site: Hypothesis keys failures by origin
+
+    def _body(case):
         if budget_s is not None and time.time() - t0 > budget_s and 'fail' not in last:
             raise Budget()
         if 'fail' in last:
@@ -109,9 +114,9 @@ def explore(prop, strategy, run_case, n, seed, stats, shrink=True, budget_s=None
             d = digest(case)
             if d in failing:
                 last['fail'] = failing[d]
-                raise Found(failing[d][0])
+                return failing[d][0]
             if time.time() - last['t'] > shrink_budget_s:
-                return
+                return None
         res = run_case(case)
         if 'fail' not in last:
             stats.record(case, res)
@@ -119,13 +124,18 @@ def explore(prop, strategy, run_case, n, seed, stats, shrink=True, budget_s=None
             sig, detail = res.violation
             kf = findings.match(prop, sig)
             if kf is not None:
-                stats.known[sig] += 1
-                stats.known_what[sig] = kf.get('what', sig)
-                return
+                if 'fail' not in last:
+                    stats.known[sig] += 1
+                    stats.known_what[sig] = kf.get('what', sig)
+                return None
+            if 'fail' in last and sig != last['first_sig']:
+                return None             # keep shrinking the same root cause
             last['fail'] = (sig, detail, case)
+            last.setdefault('first_sig', sig)
             last.setdefault('t', time.time())
             failing[digest(case)] = last['fail']
-            raise Found(sig)
+            return sig
+        return None
 
     test = given(strategy)(body)
     test = settings(max_examples=n, database=None, deadline=None, derandomize=False,
